@@ -105,8 +105,66 @@ def hRecvN : Handler
       s!"{nd.cur} {words.length - ws.length} {out.iOut} {showParse out.res} [{",".intercalate (nd.peers.map showPeer)}]")
   | _ => none
 
+/-- oracles of a line with several cipher calls: the `k`-th call of the link is entry `k - base` of the log
+    (equal plaintexts give different ciphertexts, so the log cannot be searched by input) -/
+def mkCryptoPos (maclog enclog : List (List (List Nat))) (base : Nat) (dflt : Nat) : Crypto where
+  mac := fun i => match maclog.find? (fun e => e.head? = some i) with
+    | some [_, t] => t
+    | _ => [dflt]
+  verify := fun _ _ => dflt = 1
+  encrypt := fun k d => match enclog[k - base]? with
+    | some [i, o] => if i = d ∧ base ≤ k then o else [dflt]
+    | _ => [dflt]
+  decrypt := fun _ _ => [dflt]
+
+def estsOk (md : Mode) (ms : List Int) (ests : List Nat) : Bool :=
+  ms.length = ests.length && (ms.zip ests).all (fun p => estOk md p.1 p.2)
+
+/-- aio2.sendarr cls auth enc chunked open ivsent sqn calls chunkout macacchex [m,…] [est,…] ivhex [maclog] [enclog]
+      => ret open' ivsent' sqn' calls' chunkout' macacchex' wirehex
+    one `Send(vector)`; ests: one per value sent (the delimiter included when there is one) -/
+def hSendArr : Handler
+  | [cls, auth, enc, chunked, opn, ivs, sqn, calls, cout, macacc, ms, ests, iv, maclog, enclog] => do
+    let md ← pMode cls auth enc chunked
+    let opn ← pNat opn; let ivs ← pNat ivs; let sqn ← pNat sqn; let calls ← pNat calls; let cout ← pNat cout
+    let macacc ← pHex macacc; let ms ← pIntList ms; let ests ← pNatList ests; let iv ← pHex iv
+    let maclog ← pHexTuples maclog; let enclog ← pHexTuples enclog
+    if !estsOk md (arrItems md ms) ests then some "bad-est" else
+    let tx : Tx2 := { ivSent := ivs = 1, sqn := sqn, enc := { calls := calls, chunkOut := cout }, macAcc := macacc, isOpen := opn = 1 }
+    let base := if md.ctr then cout + 1 else calls
+    let f := fun (cr : Crypto) =>
+      let (ret, tx', w) := sendArr md cr iv tx ms ests
+      s!"{showBool ret} {showBool tx'.isOpen} {showBool tx'.ivSent} {tx'.sqn} {tx'.enc.calls} {tx'.enc.chunkOut} {hexOfBytes tx'.macAcc} {hexOfBytes w}"
+    let a := f (mkCryptoPos maclog enclog base 0)
+    let b := f (mkCryptoPos maclog enclog base 1)
+    some (if a = b then a else "oracle-mismatch")
+  | _ => none
+
+def pQueue (s : String) : Option (List Int) :=
+  if s = "-" then some [] else (s.splitOn ";").mapM pInt
+
+def showQueue (q : List Int) : String :=
+  if q.isEmpty then "-" else ";".intercalate (q.map toString)
+
+/-- aio2.recvarr cls auth enc chunked n sched cur bcur idirect [words] [peer,…] [queue,…] [m,…] [veriflog] [declog]
+      => cur' bcur' wordsused iout ret [m',…] [peer',…] [queue',…]
+    one `Receive(vector, i_out, sched, 0)`; queue = values separated by `;` (`-` = empty) -/
+def hRecvArr : Handler
+  | [cls, auth, enc, chunked, n, sched, cur, bcur, idir, words, peers, queues, m, veriflog, declog] => do
+    let md ← pMode cls auth enc chunked
+    let n ← pNat n; let sched ← pSched sched; let cur ← pNat cur; let bcur ← pNat bcur; let idir ← pNat idir
+    let words ← pNatList words; let peers ← pList peers; let peers ← peers.mapM pPeer
+    let queues ← pList queues; let queues ← queues.mapM pQueue; let m ← pIntList m
+    let veriflog ← pHexTuples veriflog; let declog ← pHexTuples declog
+    some (withCrypto [] veriflog [] declog fun cr =>
+      let an : ANode := { node := { peers := peers, cur := cur }, queues := queues, bcur := bcur }
+      let (an', ws, out) := recvArr md (fun _ => cr) n sched idir an words m
+      s!"{an'.node.cur} {an'.bcur} {words.length - ws.length} {out.iOut} {showBool out.ok} {showList out.m} [{",".intercalate (an'.node.peers.map showPeer)}] [{",".intercalate (an'.queues.map showQueue)}]")
+  | _ => none
+
 def handlers : List (String × Handler) := [
-  ("aio2.send", hSend), ("aio2.nbsend", hNbSend), ("aio2.recv", hRecv), ("aio2.recvn", hRecvN)
+  ("aio2.send", hSend), ("aio2.nbsend", hNbSend), ("aio2.recv", hRecv), ("aio2.recvn", hRecvN),
+  ("aio2.sendarr", hSendArr), ("aio2.recvarr", hRecvArr)
 ]
 
 end Tmcg.DriverAio2
